@@ -433,7 +433,9 @@ func fsFamily(w *mon.W) {
 				t = "/download?file=" + r.Str("..", "../", "a/..", "a/../..", "../c.txt", "a/../../", "a/f.txt", "./..", "a/b/../../..")
 			}
 			if ei == 5 {
-				t = r.Str("/assets-old/c.txt", "/assets/a/f.txt", "/assets%2dold/c.txt", "/assets-old/x/../c.txt", "/assets/../c.txt", "/assetsa/f.txt")
+				t = r.Str("/assets-old/c.txt", "/assets/a/f.txt", "/assets%2dold/c.txt", "/assets-old/x/../c.txt", "/assets/../c.txt", "/assetsa/f.txt",
+					// what is left after the prefix begins with ".." (no slash in front of the dots)
+					"/assets../c.txt", "/assets%2e%2e/c.txt", "/assets.%2E/c.txt", "/assets..%2fc.txt", "/assets..", "/assets../secret/c.txt", "/assets../root-old/c.txt")
 			}
 			// the Host header is the peer's choice too (the virtual-host rewriter makes it
 			// the first path segment)
